@@ -195,6 +195,9 @@ func (c *Ctx) oracleC15(n, t uint64) {
 	if w != want {
 		fail(fmt.Sprintf("subtree width %d is not min(least pow2 >= ceil(n/t), minSide) = %d", w, want))
 	}
+	if w == 0 || n/w > 1<<14 {
+		return // the mountain range of a huge blob under a tiny width has millions of entries: widths only
+	}
 	sizes, err := inclusion.MerkleMountainRangeSizes(n, w)
 	if err != nil {
 		fail("mountain range sizes returned an error")
@@ -412,6 +415,7 @@ func streamArith(c *Ctx) {
 		used, idx := inclusion.BlobSharesUsedNonInteractiveDefaults(cur, int(t), lens...)
 		c.emit(op, fmt.Sprintf("%d [%s]", used, natList(idx)))
 	}
+	c.rareArith()
 	c.arith1("rdown", 0)
 	// Go-side oracle on a sub-grid (the property's laws against an independent reference)
 	on := uint64(1) << 10
@@ -470,6 +474,7 @@ func streamArithLen(c *Ctx) {
 		c.arith1("csn", n)
 		c.arith1("ssn", n)
 	}
+	c.rareLens()
 	c.stats.Exhaustive = append(c.stats.Exhaustive, fmt.Sprintf("CompactSharesNeeded/SparseSharesNeeded(+WithSigner)/delimLen for every length < %d; AvailableBytesFrom* for every n < %d", maxLen, maxLen/256))
 	// oracle: exact inverses
 	for n := 1; n < int(maxLen/256); n++ {
@@ -485,4 +490,183 @@ func streamArithLen(c *Ctx) {
 				[]string{fmt.Sprintf("arith abs %d", n), fmt.Sprintf("arith ssn %d", as), fmt.Sprintf("arith ssn %d", as+1)})
 		}
 	}
+}
+
+// logU draws a value whose bit length is uniform in [1, maxBits] (so large and small magnitudes are
+// equally likely), then optionally snaps it next to a "structured" value.
+func (c *Ctx) logU(maxBits int) uint64 {
+	b := c.rng.Range(1, maxBits)
+	v := uint64(1)<<uint(b-1) | c.rng.U64()&(uint64(1)<<uint(b-1)-1)
+	switch c.rng.Intn(8) {
+	case 0: // a power of two and its neighbours
+		v = uint64(1)<<uint(b-1) + uint64(c.rng.Intn(3)) - 1
+	case 1: // a perfect square and its neighbours
+		k := uint64(1)<<uint((b+1)/2-1) | c.rng.U64()&(uint64(1)<<uint((b+1)/2-1)-1)
+		v = k*k + uint64(c.rng.Intn(3)) - 1
+	case 2: // a power of four / 2^a * 3 and neighbours
+		if c.rng.Bool() {
+			v = uint64(1)<<uint(2*((b-1)/2)) + uint64(c.rng.Intn(3)) - 1
+		} else {
+			v = 3<<uint(b/2) + uint64(c.rng.Intn(3)) - 1
+		}
+	}
+	if v == 0 {
+		v = 1
+	}
+	return v
+}
+
+// rareArith: arguments a grid of small values and the obvious boundaries do not reach - large share
+// counts (up to 2^28), thresholds of every magnitude (up to 2^31), residue coincidences n = m*t + {0, 1,
+// t-1}, t = n, t = n +- 1, t > n, structured values (powers of two and four, perfect squares, 3*2^a and
+// their neighbours), large cursors next to multiples of the width. Code vs model for every argument, the
+// laws of C15 against the independent reference for every pair (seeded round 9).
+func (c *Ctx) rareArith() {
+	nr := c.n(6000, 120000)
+	for i := 0; i < nr; i++ {
+		n := c.logU(28)
+		t := c.logU(31)
+		switch c.rng.Intn(10) {
+		case 0:
+			t = n
+		case 1:
+			t = n + 1
+		case 2:
+			if n > 1 {
+				t = n - 1
+			}
+		case 3: // n = m*t + r, r in {0, 1, t-1}
+			t = c.logU(14)
+			m := c.logU(14)
+			r := []uint64{0, 1, t - 1}[c.rng.Intn(3)]
+			n = m*t + r
+		case 4: // small thresholds with large n
+			t = uint64(c.rng.Range(1, 130))
+		}
+		if n == 0 {
+			n = 1
+		}
+		if t == 0 {
+			t = 1
+		}
+		c.arith1("stw", n, t)
+		c.oracleC15(n, t)
+		w := uint64(inclusion.SubTreeWidth(int(n), int(t)))
+		var cur uint64
+		switch c.rng.Intn(4) {
+		case 0:
+			cur = c.logU(24)
+		case 1: // next to a multiple of the width
+			if w > 0 {
+				cur = (c.logU(20)/w)*w + uint64(c.rng.Intn(3))
+				if cur > 0 {
+					cur--
+				}
+			}
+		default:
+			cur = uint64(c.rng.Range(0, 1<<16))
+		}
+		c.arith1("nsi", cur, n, t)
+		c.oracleNSI(cur, n, t)
+		if i%4 == 0 {
+			c.arith1("rumo", cur, uint64(1)<<uint(c.rng.Intn(20)))
+			c.arith1("rumo", cur, c.logU(20))
+		}
+		if i%3 == 0 {
+			m := c.logU(40)
+			for _, fn := range []string{"rup", "rup2", "rdown", "ispow"} {
+				c.arith1(fn, m)
+			}
+			c.oracleC15n(n)
+			c.arith1("minsq", n)
+			c.arith1("size", n)
+		}
+		if i%5 == 0 && w > 0 {
+			// mountain ranges of large blobs: at most ~2^11 trees
+			tot := n
+			if tot/w > 2048 {
+				tot = w*uint64(c.rng.Range(1, 2048)) + c.rng.U64()%w
+			}
+			c.arith1("mmr", tot, w)
+			c.oracleMMR(tot, w)
+		}
+	}
+	c.dist("rare-arith")
+}
+
+// oracleMMR: the sizes are powers of two, non-increasing, at most the width, and sum to the total.
+func (c *Ctx) oracleMMR(total, w uint64) {
+	c.oracle()
+	l, err := inclusion.MerkleMountainRangeSizes(total, w)
+	ok := err == nil
+	var sum, prev uint64 = 0, ^uint64(0)
+	for _, x := range l {
+		if !refIsPow2(x) || x > w || x > prev {
+			ok = false
+		}
+		prev = x
+		sum += x
+	}
+	if !ok || sum != total {
+		c.violate("C15", "", fmt.Sprintf("MerkleMountainRangeSizes(%d, %d) = %v (err %v): not non-increasing powers of two <= the width summing to the total", total, w, l, err), "", []string{fmt.Sprintf("arith mmr %d %d", total, w)})
+	}
+}
+
+// refSharesNeeded: closed form written from the share layout (first share holds `first` bytes, the
+// others `cont`), independent of the code under test.
+func refSharesNeeded(n, first, cont uint64) uint64 {
+	if n == 0 {
+		return 0
+	}
+	if n <= first {
+		return 1
+	}
+	return 1 + (n-first+cont-1)/cont
+}
+
+// rareLens: sequence lengths of every magnitude up to 2^32-1 and on the residues where a share fills
+// exactly (first + k*cont + {-1, 0, 1}) for random k: code vs model vs the closed form.
+func (c *Ctx) rareLens() {
+	nr := c.n(8000, 200000)
+	for i := 0; i < nr; i++ {
+		n := c.logU(32)
+		kind := c.rng.Intn(6)
+		k := c.logU(23)
+		d := uint64(c.rng.Intn(3))
+		switch kind {
+		case 0:
+			n = 478 + 482*k + d - 1
+		case 1:
+			n = 458 + 482*k + d - 1
+		case 2:
+			n = 474 + 478*k + d - 1
+		case 3:
+			n = 1<<32 - 1 - uint64(c.rng.Intn(2000))
+		}
+		if n >= 1<<32 {
+			n = 1<<32 - 1
+		}
+		c.arith1("csn", n)
+		c.arith1("ssn", n)
+		s := uint64(c.rng.Intn(2))
+		c.arith1("ssnws", n, s)
+		c.oracle()
+		first := uint64(478)
+		if s == 1 {
+			first = 458
+		}
+		if got, want := uint64(share.CompactSharesNeeded(uint32(n))), refSharesNeeded(n, 474, 478); got != want {
+			c.violate("C13", "", fmt.Sprintf("CompactSharesNeeded(%d) = %d, a sequence of that many bytes occupies %d shares", n, got, want), "", []string{fmt.Sprintf("arith csn %d", n)})
+		}
+		if got, want := uint64(sparseSharesNeededWithSigner(uint32(n), s == 1)), refSharesNeeded(n, first, 482); got != want {
+			c.violate("C13", "", fmt.Sprintf("SparseSharesNeededWithSigner(%d, %v) = %d, a blob of that many bytes occupies %d shares", n, s == 1, got, want), "", []string{fmt.Sprintf("arith ssnws %d %d", n, s)})
+		}
+		if i%4 == 0 {
+			m := c.logU(23)
+			c.arith1("abc", m)
+			c.arith1("abs", m)
+			c.arith1("delim", c.logU(31))
+		}
+	}
+	c.dist("rare-lens")
 }
